@@ -27,7 +27,9 @@ ID_CHARS = bytes(c for c in range(0x20, 0x7F) if c not in (0x2F, 0x21, 0x5C))
 STRICT_IDENT = re.compile(rb"^/[A-Z][A-Z][A-Za-z][0-9](\\[A-Za-z0-9_])*[ \x22-\x2e\x30-\x5b\x5d-\x7e]{0,16}\r\n$")
 # Loose: a necessary condition of any reasonable reading of "well-formed identification line":
 # starts with "/", three letters, one digit, and only printable ASCII up to the line end.
-LOOSE_IDENT = re.compile(rb"^/[A-Za-z]{3}[0-9][ -~]*\r?\n$")
+# Trailing ASCII white space (incl. the separators 0x1C..0x1F that str.strip() removes) is tolerated:
+# a lenient reading of the line end is not a malformed identification.
+LOOSE_IDENT = re.compile(rb"^/[A-Za-z]{3}[0-9][ -~]*[\t\n\x0b\x0c\r\x1c-\x1f ]*$")
 
 
 def first_line(readout: bytes) -> bytes:
